@@ -415,7 +415,11 @@ func runChain(sh chainShape, table map[byte]refmodel.Behaviour) (obs chainObs, b
 		log = log[:0]
 	}
 	w := httptest.NewRecorder()
-	obs.pv = try(func() { r.ServeHTTP(w, httptest.NewRequest(method, reqPath, nil)) })
+	var hw http.ResponseWriter = w
+	if strings.Contains(sh.Hooks, "L") {
+		hw = lostW{w}
+	}
+	obs.pv = try(func() { r.ServeHTTP(hw, httptest.NewRequest(method, reqPath, nil)) })
 	if p > 0 && g == 0 && strings.Contains(sh.Hooks, "S") {
 		// (no global middleware: a request for the route outside the group runs none of the instrumented handlers)
 		n0 := len(log)
@@ -429,3 +433,11 @@ func runChain(sh chainShape, table map[byte]refmodel.Behaviour) (obs chainObs, b
 	obs.body = w.Body.String()
 	return
 }
+
+// lostW is the writer of a client that is gone: the status line is accepted, every body byte is refused.
+type lostW struct{ *httptest.ResponseRecorder }
+
+func (lostW) Write([]byte) (int, error)       { return 0, errLostClient }
+func (lostW) WriteString(string) (int, error) { return 0, errLostClient }
+
+var errLostClient = errors.New("verif: write on a connection whose client is gone")
